@@ -389,6 +389,9 @@ func checkC16(c *Ctx, r *Report) {
 		o := r.add("C16.d", "guardedby", gd+":leading-contiguous-run", "without @Description the description is the run of free-text lines that starts at line 0 and has no gap", []string{gd}, s2, v2)
 		o.NonTrivial = true
 	}
+
+	// every element filter in these packages is a reviewed one
+	ruleSkipInventory(c, r, "C16.c", loadSkipTable(c.VerifDir), 5, "core/annotations", "gast")
 }
 
 func exprListString(n ast.Node) string {
